@@ -24,6 +24,12 @@ def main():
     m = 7 if thorough else 60
     cases2, res2 = we.export_cases(2, mod=m, rem=(c.seed + 3) % m, tier=c.tier)
     types = we.group_types(cases + cases2)
+    # chains of two container levels over an optional / a union (WireCases.tla Stacked): all of them in the thorough tier, a seeded dozen otherwise
+    cases3, _ = we.export_cases(3, tier=c.tier)
+    stacked = we.group_types(cases3)
+    c.rng.shuffle(stacked)
+    types += stacked if thorough else stacked[:12]
+    c.cov["tlc_cases_depth3_stacked"] = sum(len(cs) for t, cs in (stacked if thorough else stacked[:12]))
     c.rng.shuffle(types)
     pkgs = we.make_packages(types, 24, sc)
     for p in pkgs:      # records spelled as instances of generic records, defined locally or in an imported package
